@@ -229,6 +229,8 @@ def worker(case: Dict[str, Any]) -> CaseResult:
     if case.get("names"):
         cfg_full["schema_variable_name"], cfg_full["type_map_variable_name"] = case["names"]
     feats.add("target." + target.rsplit(".", 1)[1])
+    if target != target.lower():
+        feats.add("target.mixed_case_name")
     fl = sorted(feats)
     replay_case = dict(case)
     replay_case["_sdl"] = sdl
@@ -269,7 +271,7 @@ def worker(case: Dict[str, Any]) -> CaseResult:
             violations.append(Violation(PROP, "target-written", "target file %s not written" % target, fl, replay_case, mech="c16:target-written"))
             return CaseResult("violated", [v.to_json() for v in violations], stats, {"features": fl})
         stats["generated"] = 1
-        if target.endswith(".py"):
+        if target.lower().endswith(".py"):
             with warnings.catch_warnings(record=True) as caught:
                 warnings.simplefilter("always")
                 try:
@@ -388,7 +390,8 @@ def run(tier: str, seed: int) -> int:
     r.assumptions = ["graphql-core build_schema/print_schema are the reference reading of the SDL"]
     r.floors = {"print_comparisons": 200, "structural_comparisons": 200, "directives_compared": 50, "regenerations_after_edit": 40, "introspected_sources": 20}
     n = 3000 if tier == "thorough" else 400
-    targets = [("schema_out.py", None), ("schema_out.py", ("my_schema", "my_types")), ("out.graphql", None), ("sub_out.gql", None), ("schema_out.py", ("schema_", "TYPES"))]
+    targets = [("schema_out.py", None), ("schema_out.py", ("my_schema", "my_types")), ("out.graphql", None), ("sub_out.gql", None), ("schema_out.py", ("schema_", "TYPES")),
+               ("Schema.GraphQL", None), ("schema.GQL", None)]  # the extension decides the format whatever its letter case
     cases = []
     for i in range(n):
         t, names = targets[i % len(targets)]
